@@ -78,6 +78,18 @@ theorem TailOK.append_noDelta {done cs : List Cell} (h1 : TailOK done) (h2 : NoD
   · rw [List.getElem?_append_right (by omega)] at hget
     exact h1 _ (by omega) n h hget
 
+/-- appending the cells keeps `TailOK` -/
+def TailKeep (cs : List Cell) : Prop := ∀ done, TailOK done → TailOK (done ++ cs)
+
+theorem NoDelta.tailKeep {cs : List Cell} (h : NoDelta cs) : TailKeep cs := fun _ h1 => h1.append_noDelta h
+
+theorem TailKeep.append {a b : List Cell} (ha : TailKeep a) (hb : TailKeep b) : TailKeep (a ++ b) := by
+  intro done h
+  rw [← List.append_assoc]
+  exact hb _ (ha _ h)
+
+theorem tailKeep_nil : TailKeep [] := fun done h => by simpa using h
+
 theorem TailOK.append_range (done : List Cell) (num : Int) (d x : Int) :
     TailOK (done ++ [Cell.rep num 1, Cell.int .i d, Cell.int .i x]) := by
   intro k hk n h hget
@@ -184,13 +196,18 @@ theorem RangeOK.last {nb : Option Int} {x z : Int} (h : RangeOK nb x z) :
 
 /-- the argument `t` with the cells `cs` offers `nb` to a range that follows it: a scalar value or a
     repetition of a scalar value offers the value if it is an 'i' integer; a range of 'i' integers
-    offers its right end -/
+    offers its right end; an array or a repeated array offers nothing (fix C11-04: the last element
+    inside the array is not the left neighbour) -/
 inductive Prov : Bytes → List Cell → Option Int → Prop
   | scalar (t : Bytes) (c0 : Cell) : ValOK t c0 → Prov t [c0] (nbInt c0)
   | rep (n : Nat) (t : Bytes) (c0 : Cell) : 1 ≤ n → n ≤ 2147483647 → ValOK t c0 →
       Prov (repText n t) [Cell.rep n 0, c0] (nbInt c0)
   | range (nb : Option Int) (p q : Int) (w1 w2 : Bytes) : RangeOK nb p q → AllWs w1 → w1 ≠ [] → AllWs w2 →
       Prov (rangeTok p q w1 w2) (rangeCellsNb nb p q) (some q)
+  | arr (t : Bytes) (ty : UInt8) (len : Int) (more : List Cell) : Arg11 t (Cell.arr ty len :: more) → hd t = 91 →
+      Prov t (Cell.arr ty len :: more) none
+  | repArr (n : Nat) (t : Bytes) (ty : UInt8) (len : Int) (more : List Cell) : 1 ≤ n → n ≤ 2147483647 →
+      Arg11 t (Cell.arr ty len :: more) → hd t = 91 → Prov (repText n t) (Cell.rep n 0 :: Cell.arr ty len :: more) none
 
 /-- `delta_from_arg_vals` as both functions call it when the scalar cell `c0` stands to the left -/
 theorem RangeOK.delta_cell (c0 : Cell) {x z : Int} (h : RangeOK (nbInt c0) x z) :
@@ -231,9 +248,9 @@ theorem len_sub (a b : Bytes) : (a ++ b).length - b.length = a.length := by simp
 
 /-- **the scanner reads a range behind a provider** -/
 theorem Prov.scanRange {tp : Bytes} {csp : List Cell} {nb : Option Int} (hp : Prov tp csp nb) (done0 : List Cell)
-    (hT : TailOK done0) (pok : Bool) (hcpr : canPrecedeRange csp = .ok pok) (f : Nat) (x z : Int)
+    (hT : TailOK done0) (pok : Bool) (hcpr : canPrecedeRange csp = .ok pok) (extra : List Cell) (f : Nat) (x z : Int)
     (hr : RangeOK nb x z) (w1 w2 rest : Bytes) (hw1 : AllWs w1) (hne : w1 ≠ []) (hw2 : AllWs w2) (hs : Sep rest) :
-    C11.scanArgVal (f + 2) (rangeTok x z w1 w2 ++ rest) (done0 ++ csp).reverse
+    C11.scanArgVal (f + 2) (rangeTok x z w1 w2 ++ rest) ((done0 ++ csp).reverse ++ extra)
         (if pok then (done0 ++ csp).length else 0) true =
       .ok ((rangeTok x z w1 w2).length, rangeCellsNb nb x z) := by
   rw [rangeTok_append, ← rangeTok_length x z w1 w2 rest]
@@ -245,19 +262,34 @@ theorem Prov.scanRange {tp : Bytes} {csp : List Cell} {nb : Option Int} (hp : Pr
     have : pok = true := by
       rw [canPrecedeRange_scalar c0 [] hsc] at hcpr; injection hcpr with e; exact e.symm
     subst this
-    simp only [List.reverse_append, List.reverse_cons, List.reverse_nil, List.nil_append, List.cons_append, ↓reduceIte]
-    apply scanArgVal_rangeB f x z hr.hx1 hr.hx2 hr.hz1 hr.hz2 w1 w2 rest hw1 hne hw2 hs c0 done0.reverse _
-      (by simp) (Or.inr (fun n h hk => hT 1 (by omega) n h hk)) (nbCell_of_scalar c0 hsc)
-    exact hr.delta_cell c0
+    simp only [List.reverse_append, List.reverse_cons, List.reverse_nil, List.nil_append, List.cons_append, ↓reduceIte,
+      List.append_assoc]
+    apply scanArgVal_rangeB f x z hr.hx1 hr.hx2 hr.hz1 hr.hz2 w1 w2 rest hw1 hne hw2 hs c0 (done0.reverse ++ extra) _
+      (by simp) _ (nbCell_of_scalar c0 hsc)
+    · exact hr.delta_cell c0
+    · by_cases hl : done0.length ≤ 1
+      · left; simp only [List.length_append, List.length_singleton]; omega
+      · right
+        intro n h hk
+        rw [List.getElem?_append_left (by simp only [List.length_reverse]; omega)] at hk
+        exact hT 1 (by omega) n h hk
   | rep n t c0 h1 h2 hv =>
     have hsc := hv.scalar
     have : pok = true := by
       rw [canPrecedeRange11_rep_scalar (n : Int) c0 [] hsc] at hcpr; injection hcpr with e; exact e.symm
     subst this
-    simp only [List.reverse_append, List.reverse_cons, List.reverse_nil, List.nil_append, List.cons_append, ↓reduceIte]
-    apply scanArgVal_rangeB f x z hr.hx1 hr.hx2 hr.hz1 hr.hz2 w1 w2 rest hw1 hne hw2 hs c0 (Cell.rep n 0 :: done0.reverse) _
-      (by simp) (Or.inr (fun n h hk => hT 0 (by omega) n h (by simpa using hk))) (nbCell_of_scalar c0 hsc)
-    exact hr.delta_cell c0
+    simp only [List.reverse_append, List.reverse_cons, List.reverse_nil, List.nil_append, List.cons_append, ↓reduceIte,
+      List.append_assoc]
+    apply scanArgVal_rangeB f x z hr.hx1 hr.hx2 hr.hz1 hr.hz2 w1 w2 rest hw1 hne hw2 hs c0
+      (Cell.rep n 0 :: (done0.reverse ++ extra)) _ (by simp) _ (nbCell_of_scalar c0 hsc)
+    · exact hr.delta_cell c0
+    · by_cases hl : done0.length = 0
+      · left; simp only [List.length_append, List.length_cons, List.length_nil]; omega
+      · right
+        intro n h hk
+        have hk' : (done0.reverse ++ extra)[0]? = some (Cell.rep n h) := by simpa using hk
+        rw [List.getElem?_append_left (by simp only [List.length_reverse]; omega)] at hk'
+        exact hT 0 (by omega) n h hk'
   | range nb' p q v1 v2 hpq hv1 hvne hv2 =>
     have : pok = true := by
       simp [rangeCellsNb, canPrecedeRange, deref, bind, Except.bind, pure, Except.pure] at hcpr
@@ -265,10 +297,27 @@ theorem Prov.scanRange {tp : Bytes} {csp : List Cell} {nb : Option Int} (hp : Pr
     subst this
     have hl := hpq.last
     simp only [rangeCellsNb] at hl ⊢
-    simp only [List.reverse_append, List.reverse_cons, List.reverse_nil, List.nil_append, List.cons_append, ↓reduceIte]
-    apply scanArgVal_rangeC f x z hr.hx1 hr.hx2 hr.hz1 hr.hz2 w1 w2 rest hw1 hne hw2 hs _ _ _ 1 done0.reverse _
+    simp only [List.reverse_append, List.reverse_cons, List.reverse_nil, List.nil_append, List.cons_append, ↓reduceIte,
+      List.append_assoc]
+    apply scanArgVal_rangeC f x z hr.hx1 hr.hx2 hr.hz1 hr.hz2 w1 w2 rest hw1 hne hw2 hs _ _ _ 1 (done0.reverse ++ extra) _
       (by simp) (by decide) (Cell.int .i q) hl (nbCell_of_scalar _ rfl)
     exact hr.delta_cell (Cell.int .i q)
+  | arr t ty len more ht h91 =>
+    have : pok = false := by
+      simp [canPrecedeRange, deref, bind, Except.bind, pure, Except.pure] at hcpr
+      exact hcpr
+    subst this
+    simp only [Bool.false_eq_true, ↓reduceIte]
+    exact scanArgVal_range0 f x z hr.hx1 hr.hx2 hr.hz1 hr.hz2 w1 w2 rest hw1 hne hw2 hs _ _ _
+      (fun ll => hr.delta_unit (Or.inl rfl) ll)
+  | repArr n t ty len more h1 h2 ht h91 =>
+    have : pok = false := by
+      simp [canPrecedeRange, deref, bind, Except.bind, pure, Except.pure, ArgVal.Cell.type] at hcpr
+      exact hcpr
+    subst this
+    simp only [Bool.false_eq_true, ↓reduceIte]
+    exact scanArgVal_range0 f x z hr.hx1 hr.hx2 hr.hz1 hr.hz2 w1 w2 rest hw1 hne hw2 hs _ _ _
+      (fun ll => hr.delta_unit (Or.inl rfl) ll)
 
 
 /-! ### the checker behind a provider -/
@@ -318,7 +367,7 @@ theorem rangeTok_tokStart (x z : Int) (hx1 : -2147483648 ≤ x) (hx2 : x ≤ 214
 /-- **the checker reads a range behind a provider** -/
 theorem Prov.skipRange {tp : Bytes} {csp : List Cell} {nb : Option Int} (hp : Prov tp csp nb) (g : List Gap)
     (hg : SepGaps g) (f : Nat) (x z : Int) (hr : RangeOK nb x z) (w1 w2 rest : Bytes) (hw1 : AllWs w1) (hne : w1 ≠ [])
-    (hw2 : AllWs w2) (hs : Sep rest) (ty : UInt8) (ib : Bool) :
+    (hw2 : AllWs w2) (hs : Sep rest) (ty : UInt8) (ib : Bool) (hfu : tp.length ≤ f + 1) :
     C11.skipNextPrintedArg (f + 3) (rangeTok x z w1 w2 ++ rest) ty
         (some (tp ++ (gapsBytes g ++ (rangeTok x z w1 w2 ++ rest)))) true ib = .ok ⟨some rest, 3, 45⟩ := by
   have hstart := rangeTok_tokStart x z hr.hx1 hr.hx2 w1 w2
@@ -385,6 +434,34 @@ theorem Prov.skipRange {tp : Bytes} {csp : List Cell} {nb : Option Int} (hp : Pr
       (fmtDec p ++ rangeRest v1 v2 (fmtDec q) R) (rangeRest v1 v2 (fmtDec q) R) ⟨some (rangeRest v1 v2 (fmtDec q) R), 1, 105⟩
       hra rfl (fmtDec q ++ R) ⟨some R, 1, 105⟩ hll1 hrl (decide (q = x)) (some (Cell.int .i q))
       (Or.inr ⟨rfl, q, hsc, rfl, rfl⟩) _ _ hdelta' hnum
+  | arr t aty len more ht h91 =>
+    obtain ⟨ra, hra, hsrc, _, hty⟩ := ht.skip R (f + 1) 0 none false ib hsR hfu
+    have htyA : typesMatch ra.type 105 = false := by
+      rw [hty]; simp [ArgVal.Cell.type, ArgVal.tyA, typesMatch]
+    have hnm : isRangeMultiplier (tp ++ R) = false := by
+      unfold isRangeMultiplier
+      rw [hd_append_of_ne_nil _ _ ht.start.1, h91]
+      rfl
+    have hll1 : (if List.length (skipSpace R) > (46 :: 46 :: 46 :: (w2 ++ (fmtDec z ++ rest))).length ∧
+        startsWith (skipSpace R) [46, 46, 46] = true then skipSpace (List.drop 3 (skipSpace R))
+      else if isRangeMultiplier (tp ++ R) = true then afterX (tp ++ R) else tp ++ R) = tp ++ R := by
+      simp [hnodots, hnm]
+    exact skipNext_rangeL (f + 1) x z hr.hx1 hr.hx2 hr.hz1 hr.hz2 w1 w2 rest hw1 hne hw2 hs ty ib (tp ++ R) R
+      ra hra hsrc (tp ++ R) ra hll1 hra true none (Or.inl ⟨htyA, rfl, rfl⟩) _ _ (hr.delta_unit (Or.inl rfl) none) hnum
+  | repArr n t aty len more h1 h2 ht h91 =>
+    obtain ⟨ra, hra, hsrc, _, _⟩ := (ht.rep n h1 h2).skip R (f + 1) 0 none false ib hsR hfu
+    obtain ⟨rl, hrl, _, _, hty⟩ := ht.skip R (f + 1) 0 none false ib hsR (by rw [repText_length] at hfu; omega)
+    have htyA : typesMatch rl.type 105 = false := by
+      rw [hty]; simp [ArgVal.Cell.type, ArgVal.tyA, typesMatch]
+    have happ : repText n t ++ R = fmtDec (n : Int) ++ 120 :: (t ++ R) := by simp [repText]
+    have hll1 : (if List.length (skipSpace R) > (46 :: 46 :: 46 :: (w2 ++ (fmtDec z ++ rest))).length ∧
+        startsWith (skipSpace R) [46, 46, 46] = true then skipSpace (List.drop 3 (skipSpace R))
+      else if isRangeMultiplier (repText n t ++ R) = true then afterX (repText n t ++ R) else repText n t ++ R) =
+        t ++ R := by
+      rw [happ]
+      simp [hnodots, isRangeMultiplier_mult n h1 _, afterX_mult n h1 (t ++ R)]
+    exact skipNext_rangeL (f + 1) x z hr.hx1 hr.hx2 hr.hz1 hr.hz2 w1 w2 rest hw1 hne hw2 hs ty ib (repText n t ++ R) R
+      ra hra hsrc (t ++ R) rl hll1 hrl true none (Or.inl ⟨htyA, rfl, rfl⟩) _ _ (hr.delta_unit (Or.inl rfl) none) hnum
 
 
 /-! ### texts of arguments and ranges -/
@@ -407,9 +484,9 @@ inductive LayR : Ctx → List (Bytes × List Cell) → Bytes → Prop
   | oneR (ctx : Ctx) (x z : Int) (w1 w2 tail : Bytes) : ctx ≠ .any → RangeOK ctx.nb x z → AllWs w1 → w1 ≠ [] → AllWs w2 →
       Tail tail → LayR ctx [(rangeTok x z w1 w2, rangeCellsNb ctx.nb x z)] (rangeTok x z w1 w2 ++ tail)
   | consA (ctx : Ctx) (t : Bytes) (cs : List Cell) (g : List Gap) (more : List (Bytes × List Cell)) (text : Bytes) :
-      Arg11 t cs → NoDelta cs → SepGaps g → LayR .any more text → LayR ctx ((t, cs) :: more) (t ++ (gapsBytes g ++ text))
+      Arg11 t cs → TailKeep cs → SepGaps g → LayR .any more text → LayR ctx ((t, cs) :: more) (t ++ (gapsBytes g ++ text))
   | consP (ctx : Ctx) (t : Bytes) (cs : List Cell) (nb : Option Int) (g : List Gap) (more : List (Bytes × List Cell))
-      (text : Bytes) : Arg11 t cs → NoDelta cs → Prov t cs nb → SepGaps g → LayR (.after t g cs nb) more text →
+      (text : Bytes) : Arg11 t cs → TailKeep cs → Prov t cs nb → SepGaps g → LayR (.after t g cs nb) more text →
       LayR ctx ((t, cs) :: more) (t ++ (gapsBytes g ++ text))
   | consR (ctx : Ctx) (x z : Int) (w1 w2 : Bytes) (g : List Gap) (more : List (Bytes × List Cell)) (text : Bytes) :
       ctx ≠ .any → RangeOK ctx.nb x z → AllWs w1 → w1 ≠ [] → AllWs w2 → SepGaps g →
@@ -509,7 +586,8 @@ theorem scan_rangeHead (ctx : Ctx) (hctx : ctx ≠ .any) (x z : Int) (hr : Range
     exact this
   | after tp g csp nb =>
     obtain ⟨_, hp, done0, rfl, hT0, hcpr⟩ := hinv
-    exact hp.scanRange done0 hT0 pok hcpr f x z hr w1 w2 rest hw1 hne hw2 hs
+    have := hp.scanRange done0 hT0 pok hcpr [] f x z hr w1 w2 rest hw1 hne hw2 hs
+    rwa [List.append_nil] at this
 
 theorem cpr_rangeCells (nb : Option Int) (x z : Int) : canPrecedeRange (rangeCellsNb nb x z) = .ok true := by
   simp [rangeCellsNb, canPrecedeRange, deref, bind, Except.bind, pure, Except.pure]
@@ -557,7 +635,7 @@ theorem scanLoop_layR {ctx : Ctx} {tcs : List (Bytes × List Cell)} {text : Byte
     have e : done.length + cs.length = (done ++ cs).length := by simp
     rw [e, ih f n b (done ++ cs) (rd + t.length + (gapsBytes g).length)
       (by simp only [allCells, List.length_append]; omega) (by simp at hf; omega)
-      ⟨hinv.1.append_noDelta hnd, trivial⟩]
+      ⟨hnd _ hinv.1, trivial⟩]
     simp only [List.length_append, List.append_assoc, allCells]
     congr 2; omega
   | consP ctx t cs nb g more text ht hnd hp hg hmore ih =>
@@ -576,7 +654,7 @@ theorem scanLoop_layR {ctx : Ctx} {tcs : List (Bytes × List Cell)} {text : Byte
     have e : done.length + cs.length = (done ++ cs).length := by simp
     rw [e, ih f n b (done ++ cs) (rd + t.length + (gapsBytes g).length)
       (by simp only [allCells, List.length_append]; omega) (by simp at hf; omega)
-      ⟨hinv.1.append_noDelta hnd, hp, done, rfl, hinv.1, hb⟩]
+      ⟨hnd _ hinv.1, hp, done, rfl, hinv.1, hb⟩]
     simp only [List.length_append, List.append_assoc, allCells]
     congr 2; omega
   | consR ctx x z w1 w2 g more text hctx hr hw1 hne hw2 hg hmore ih =>
@@ -602,11 +680,12 @@ theorem scanLoop_layR {ctx : Ctx} {tcs : List (Bytes × List Cell)} {text : Byte
 theorem skip_rangeHead (ctx : Ctx) (hctx : ctx ≠ .any) (x z : Int) (hr : RangeOK ctx.nb x z) (w1 w2 rest : Bytes)
     (hw1 : AllWs w1) (hne : w1 ≠ []) (hw2 : AllWs w2) (hs : Sep rest) (recent : Option Bytes)
     (hinv : CInv ctx recent (rangeTok x z w1 w2 ++ rest)) :
-    ∃ r, C11.skipNextPrintedArg ((rangeTok x z w1 w2 ++ rest).length + 2) (rangeTok x z w1 w2 ++ rest) 0 recent true false =
-      .ok r ∧ r.src = some rest ∧ r.skipped = (rangeCellsNb ctx.nb x z).length := by
+    ∃ r, C11.skipNextPrintedArg (lookBackFuel (rangeTok x z w1 w2 ++ rest) recent) (rangeTok x z w1 w2 ++ rest) 0 recent
+      true false = .ok r ∧ r.src = some rest ∧ r.skipped = (rangeCellsNb ctx.nb x z).length := by
   have hpos := List.length_pos_iff.mpr (rangeTok_tokStart x z hr.hx1 hr.hx2 w1 w2).1
-  obtain ⟨f, hf⟩ : ∃ f, (rangeTok x z w1 w2 ++ rest).length + 2 = f + 3 :=
-    ⟨(rangeTok x z w1 w2 ++ rest).length - 1, by simp only [List.length_append]; omega⟩
+  obtain ⟨f, hf⟩ : ∃ f, lookBackFuel (rangeTok x z w1 w2 ++ rest) recent = f + 3 :=
+    ⟨lookBackFuel (rangeTok x z w1 w2 ++ rest) recent - 3, by
+      unfold lookBackFuel; simp only [List.length_append]; omega⟩
   rw [hf]
   cases ctx with
   | any => exact absurd rfl hctx
@@ -620,7 +699,8 @@ theorem skip_rangeHead (ctx : Ctx) (hctx : ctx ≠ .any) (x z : Int) (hr : Range
   | after tp g csp nb =>
     obtain ⟨hp, hg, hrec⟩ := hinv
     subst hrec
-    exact ⟨⟨some rest, 3, 45⟩, hp.skipRange g hg f x z hr w1 w2 rest hw1 hne hw2 hs 0 false, rfl, rfl⟩
+    exact ⟨⟨some rest, 3, 45⟩, hp.skipRange g hg f x z hr w1 w2 rest hw1 hne hw2 hs 0 false (by
+      unfold lookBackFuel at hf; simp only [List.length_append] at hf; omega), rfl, rfl⟩
 
 
 /-- the checker's loop counts the cells of a text of arguments and ranges -/
